@@ -385,9 +385,10 @@ def _co_scenario(r, ses):
     kinds = r.sample(["batch", "batch", "rule", "pages", "net", "pages", "batch"], n)
     if "batch" not in kinds and "rule" not in kinds:
         kinds[0] = "batch"
+    shared = [ses.page_lru() for _ in range(r.randint(2, 4))]
     for k in kinds:
         if k == "batch":
-            pool = [ses.page_lru() for _ in range(r.randint(1, 4))]
+            pool = shared if r.random() < 0.7 else [ses.page_lru() for _ in range(r.randint(1, 4))]
             data = {}
             for _ in range(r.randint(1, 3)):
                 s = r.choice(pool)
@@ -412,7 +413,7 @@ def _co_scenario(r, ses):
 
 def extra_C16(tier, seed, scratch, cfg, out):
     from . import model
-    hits, nscen, nsteps = [], (30 if tier == "quick" else 600), 0
+    hits, nscen, nsteps = [], (60 if tier == "quick" else 800), 0
     known_hits = []
     for i in range(nscen):
         r = random.Random(seed * 7907 + 16000 + i)
